@@ -89,7 +89,7 @@ func revMenu() []int {
 	var out []int
 	seen := map[int]bool{}
 	add := func(v int) {
-		if v >= refproto.RevSettingsAsStrings && v <= 54460 && !seen[v] {
+		if v >= refproto.RevSettingsAsStrings-1 && v <= 54460 && !seen[v] {
 			seen[v] = true
 			out = append(out, v)
 		}
@@ -379,6 +379,11 @@ func (rc *Recorder) hit(name string) error {
 func fmtVals(v []any) string { return fmt.Sprintf("%#v", v) }
 
 // ResultTargets builds typed result columns for the given schema.
+// enumAsInt makes ResultTargets bind enum columns to the plain integer
+// column of their width (Enum8 -> ColInt8, Enum16 -> ColInt16): a caller that
+// wants the numbers, which the library's type check allows.
+var enumAsInt bool
+
 func ResultTargets(cols []ColSpec) (proto.Results, []proto.Column) {
 	var res proto.Results
 	var raw []proto.Column
@@ -386,6 +391,13 @@ func ResultTargets(cols []ColSpec) (proto.Results, []proto.Column) {
 		col, err := gen.NewCol(cs.Type)
 		if err != nil {
 			panic(err)
+		}
+		if enumAsInt && len(cs.RT.Enum) > 0 && cs.RT.Kind != refproto.KArray && cs.RT.Kind != refproto.KNullable && cs.RT.Kind != refproto.KLowCard {
+			if strings.HasPrefix(cs.Type, "Enum8(") {
+				col = new(proto.ColInt8)
+			} else if strings.HasPrefix(cs.Type, "Enum16(") {
+				col = new(proto.ColInt16)
+			}
 		}
 		raw = append(raw, col)
 		res = append(res, proto.ResultColumn{Name: cs.Name, Data: col})
